@@ -224,6 +224,55 @@ type exprCtx struct {
 	c     *Ctx
 	seen  map[ssa.Value]bool
 	depth int
+	// edgeOf: render the phis of this block as the value they take on entry from predecessor number edgeIdx
+	edgeBlk *ssa.BasicBlock
+	edgeIdx int
+}
+
+// ExprOnEdge renders v as it reads when block blk was entered from its predecessor number k.
+func (c *Ctx) ExprOnEdge(v ssa.Value, blk *ssa.BasicBlock, k int) string {
+	e := &exprCtx{c: c, seen: map[ssa.Value]bool{}, edgeBlk: blk, edgeIdx: k}
+	return e.expr(v)
+}
+
+// mentionsPhiOf: the definition of v (through arithmetic, slicing, conversions, field and index selection, call
+// arguments) involves a phi of block blk.
+func mentionsPhiOf(v ssa.Value, blk *ssa.BasicBlock, depth int) bool {
+	if v == nil || depth > 6 {
+		return false
+	}
+	switch x := v.(type) {
+	case *ssa.Phi:
+		return x.Block() == blk
+	case *ssa.BinOp:
+		return mentionsPhiOf(x.X, blk, depth+1) || mentionsPhiOf(x.Y, blk, depth+1)
+	case *ssa.UnOp:
+		return mentionsPhiOf(x.X, blk, depth+1)
+	case *ssa.Slice:
+		return mentionsPhiOf(x.X, blk, depth+1) || mentionsPhiOf(x.Low, blk, depth+1) || mentionsPhiOf(x.High, blk, depth+1) || mentionsPhiOf(x.Max, blk, depth+1)
+	case *ssa.Convert:
+		return mentionsPhiOf(x.X, blk, depth+1)
+	case *ssa.ChangeType:
+		return mentionsPhiOf(x.X, blk, depth+1)
+	case *ssa.MakeInterface:
+		return mentionsPhiOf(x.X, blk, depth+1)
+	case *ssa.FieldAddr:
+		return mentionsPhiOf(x.X, blk, depth+1)
+	case *ssa.IndexAddr:
+		return mentionsPhiOf(x.X, blk, depth+1) || mentionsPhiOf(x.Index, blk, depth+1)
+	case *ssa.Extract:
+		return mentionsPhiOf(x.Tuple, blk, depth+1)
+	case *ssa.Call:
+		if x.Block() != blk {
+			return false
+		}
+		for _, a := range x.Call.Args {
+			if mentionsPhiOf(a, blk, depth+1) {
+				return true
+			}
+		}
+	}
+	return false
 }
 
 // Expr renders the definition of v as a canonical term over parameters (p0,
@@ -330,7 +379,10 @@ func (e *exprCtx) expr(v ssa.Value) string {
 		}
 		s += ":"
 		if x.High != nil {
-			s += e.expr(x.High)
+			// x[a:len(x)] is x[a:]
+			if h := e.expr(x.High); h != "builtin.len("+e.expr(x.X)+")" || x.Max != nil {
+				s += h
+			}
 		}
 		if x.Max != nil {
 			s += ":" + e.expr(x.Max)
@@ -439,6 +491,9 @@ func (e *exprCtx) expr(v ssa.Value) string {
 	case *ssa.Phi:
 		if e.seen[x] {
 			return "phi@"
+		}
+		if e.edgeBlk != nil && x.Block() == e.edgeBlk && e.edgeIdx < len(x.Edges) {
+			return e.expr(x.Edges[e.edgeIdx])
 		}
 		// a counter that starts at 0 and is incremented by 1 per iteration (`for i := 0; …; i++`) is rendered like the
 		// index go/ssa synthesises for `for i := range s`, so that the two loop forms read alike
